@@ -37,6 +37,11 @@ func (fx *Fx) inlineDeclOf(call *ast.CallExpr) (*FuncDeclInfo, ast.Expr) {
 	if spec != nil && spec.Inline {
 		return fd, recvExpr
 	}
+	// a callee of the library without a contract (e.g. a freshly extracted helper) is executed in place
+	if spec == nil && singleReturn(fd.decl) == nil {
+		fx.assumed["callee without a contract executed in place: "+key] = true
+		return fd, recvExpr
+	}
 	return nil, nil
 }
 
